@@ -54,6 +54,13 @@ def record_generated(n, rnd):
             return {'k%d' % i: gen(depth - 1)
                     for i in range(rnd.randint(0, 4))}
         for i in range(n):
+            if i % 25 == 7:
+                # an abandoned dump (alias) followed by ordinary ones
+                shared = [1]
+                try:
+                    dumps({'a': [shared, {'b': shared}]})
+                except RuntimeError:
+                    pass
             obj = gen(rnd.randint(1, 6))
             kw = {}
             if i % 3:
@@ -79,7 +86,8 @@ def validate(V, tier):
     r = run_tlc('MC_Trace_Json', 'Trace_Json.cfg', workers=1,
                 env={'TRACE_FILE': path}, timeout=3600, want_cases=False,
                 name='trace-json')
-    i = r.stdout.find('<<"TRACES"')
+    mi = re.search(r'<<\s*"TRACES"', r.stdout)
+    i = mi.start() if mi else -1
     if r.violated:
         p = os.path.join(V.replay_dir, 'trace-invariant.txt')
         with open(p, 'w') as f:
